@@ -761,6 +761,101 @@ fn classify(g: &Graph, v: &Variant, model: &[StepObs], real: &[StepObs]) -> Opti
     None
 }
 
+/// family N: dotted import paths into a module's exported maps bind exactly the named level
+fn nested_import_family(root: &str, report: &mut Report) -> u64 {
+    let dir = format!("{root}/nested");
+    let _ = std::fs::remove_dir_all(&dir);
+    std::fs::create_dir_all(&dir).expect("create dir");
+    std::fs::write(format!("{dir}/script.koto"), "# text\n").unwrap();
+    std::fs::write(
+        format!("{dir}/pkg.koto"),
+        "print 'top:pkg'\nexport sub = {s1: 'sub.s1', s2: 'sub.s2'}\nexport other = 'pkg.other'\nexport deep = {inner: {d1: 'd1'}, side: 'deep.side'}\nexport size = 'hijacked'\n",
+    )
+    .unwrap();
+    let probe = |names: &[&str]| -> String {
+        let mut o = String::new();
+        for n in names {
+            o.push_str(&format!("try\n  print '{n}=' + '{{{n}}}'\ncatch e\n  print '{n} unbound'\n"));
+        }
+        o.push_str("try\n  print 'size-of-list=' + '{size [1, 2]}'\ncatch e\n  print 'size-shadowed'\n");
+        o
+    };
+    let all = ["s1", "s2", "sub", "other", "deep", "inner", "d1", "side"];
+    let cases: Vec<(&str, Vec<&str>)> = vec![
+        ("from pkg.sub import *", vec!["s1", "s2"]),
+        ("from pkg.sub import s1", vec!["s1"]),
+        ("from pkg.sub import s2 as s1", vec!["s1=sub.s2"]),
+        ("from pkg.deep.inner import *", vec!["d1"]),
+        ("from pkg.deep import *", vec!["inner", "side"]),
+        ("from pkg.deep.inner import d1", vec!["d1"]),
+        ("from pkg import sub, other", vec!["sub", "other"]),
+        ("from pkg import *", vec!["sub", "other", "deep", "size"]),
+        ("import pkg", vec![]),
+        ("from pkg.deep import inner as sub", vec!["sub=inner"]),
+    ];
+    let mut n = 0;
+    for (stmt, bound) in cases {
+        for export_top in [false, true] {
+            for in_function in [false, true] {
+                n += 1;
+                let body = format!("{stmt}\n{}", probe(&all));
+                let src = if in_function { format!("run = ||\n{}\nrun()\n", body.lines().map(|l| format!("  {l}")).collect::<Vec<_>>().join("\n")) } else { body.clone() };
+                let v = Variant { scripts: vec![], readback: false, import_tests: false, export_top };
+                let mut inst = make_instance(&dir, &v);
+                let obs = inst.run(&src);
+                // expected: exactly the named level is bound
+                let value_of = |name: &str| -> Option<String> {
+                    let full = |n: &str| match n {
+                        "s1" => "sub.s1".to_string(),
+                        "s2" => "sub.s2".to_string(),
+                        "other" => "pkg.other".to_string(),
+                        "d1" => "d1".to_string(),
+                        "side" => "deep.side".to_string(),
+                        "sub" => "{s1: 'sub.s1', s2: 'sub.s2'}".to_string(),
+                        "inner" => "{d1: 'd1'}".to_string(),
+                        "deep" => "{inner: {d1: 'd1'}, side: 'deep.side'}".to_string(),
+                        "size" => "hijacked".to_string(),
+                        other => other.to_string(),
+                    };
+                    for b in &bound {
+                        if let Some((alias, target)) = b.split_once('=') {
+                            if alias == name {
+                                return Some(full(match target {
+                                    "sub.s2" => "s2",
+                                    t => t,
+                                }));
+                            }
+                        } else if *b == name {
+                            return Some(full(name));
+                        }
+                    }
+                    None
+                };
+                let mut want = String::from("top:pkg\n");
+                for name in all {
+                    match value_of(name) {
+                        Some(v) => want.push_str(&format!("{name}={v}\n")),
+                        None => want.push_str(&format!("{name} unbound\n")),
+                    }
+                }
+                // a wildcard import of the whole package may shadow `size`; nothing else may
+                want.push_str(if bound.contains(&"size") { "size-shadowed\n" } else { "size-of-list=2\n" });
+                let got: String = obs.stdout.clone();
+                if got != want || !matches!(obs.outcome, Outcome::Ok(_)) {
+                    let (a, b) = first_diff(&got, &want);
+                    report.fail(
+                        None,
+                        format!("[N] `{stmt}` (export_top_level_ids={export_top}, in function={in_function}): koto prints {a:?} where exactly the named level is bound: {b:?}"),
+                        format!("statement: {stmt}\nexpected:\n{want}\nobserved:\n{}\noutcome: {:?}\n--- pkg.koto is written by the engine (family N) ---\n--- program ---\n{src}", obs.stdout, obs.outcome),
+                    );
+                }
+            }
+        }
+    }
+    let _ = std::fs::remove_dir_all(&dir);
+    n
+}
+
 pub fn run(args: &Args) -> i32 {
     install_quiet_panic_hook();
     let tier = args.tier;
@@ -891,6 +986,9 @@ pub fn run(args: &Args) -> i32 {
             report.fail(key.as_deref(), what, replay);
         }
     }
+    let nested = nested_import_family(&root, &mut report);
+    let _ = std::fs::remove_dir_all(&root);
+    report.cov("nested_import_cases", nested);
     report.cov("worlds_executed", runs);
     report.cov("states", step_states.len() as u64);
     report.cov("transitions", steps);
